@@ -6,6 +6,7 @@ import Librfn.Props.C18Tie
 import Librfn.Props.C09
 import Librfn.Props.C19
 import Librfn.Props.C05
+import Librfn.Props.C07
 import Librfn.Props.C20
 import Librfn.Props.C12
 import Librfn.Props.C13
